@@ -268,8 +268,12 @@ def fam_stages(tier):
                     continue
                 yield Case((u, ('id', 'a')), {'a': x}, {'a': st}, tag=f'stages unary {u}')
     for st in itertools.product(('const', 'param', 'label'), repeat=3):
-        for c, a, b in ((0, 2, 3), (1, 2, 3), (5, -2, 0)):
+        for c, a, b in ((0, 2, 3), (1, 2, 3), (5, -2, 0), (-2, 2, 3), (-1, 5, -2)):  # any non-zero condition, also a negative one, selects the first branch
             yield Case(('?:', ('id', 'a'), ('id', 'b'), ('id', 'c')), {'a': c, 'b': a, 'c': b}, dict(zip('abc', st)), tag='stages ternary')
+            if c < 0:
+                # the condition is a difference / negation of late leaves
+                yield Case(('?:', ('-', ('id', 'a'), 5), ('id', 'b'), ('id', 'c')), {'a': c + 5, 'b': a, 'c': b}, dict(zip('abc', st)), tag='stages ternary of a difference')
+                yield Case(('?:', ('-', ('id', 'a')), ('id', 'b'), ('id', 'c')), {'a': -c, 'b': a, 'c': b}, dict(zip('abc', st)), tag='stages ternary of a negation')
     big = (1 << 64) + 1
     for op in R5.BINARY:
         for st in ('literal', 'const', 'param', 'label'):
